@@ -65,7 +65,8 @@ Print BAD_TRACE. Print BAD_STATUS. Print BAD_OUTPUT.
 
 def evaluate(ctx, cases, res, tag="c06"):
     """run the abstract tasks through the engine and judge them in Coq; returns {key: set(ids)} and obs"""
-    ecases = [{"id": c["id"], "dir": ctx.workdir, "tasks": [tasklib.to_trtask(c["a"])], "plan": [{"op": "run", "tasks": [0]}], "format": "raw"}
+    ecases = [{"id": c["id"], "dir": ctx.workdir, "tasks": [tasklib.to_trtask(c["a"])], "plan": [{"op": "run", "tasks": [0]}],
+               "format": ("raw", "prefixed", "raw")[c["id"] % 3]}          # what runs must not depend on how the output is decorated
               for c in cases]
     obs, logs = vlib.run_engine(ctx.workdir, "taskrun", ecases, tag=tag)
     items = []
@@ -181,7 +182,7 @@ def run_cfg(ctx, res, cases):
                "pipelines": {"p": [{"task": "t"}], "po": [{"task": "t", "env": {"SOME": "x"}, "variables": {"v": "1"}}], "outer": [{"pipeline": "p", "name": "inner"}],
                              # the STAGE's allow_failure lets the pipeline go on; it does not make the task run on after a failing command
                              "pa": [{"task": "t", "allow_failure": True}]}}
-        jobs.append({"id": k, "files": {"cfg.json": clilib.jcfg(doc)}, "argv": ["-c", "cfg.json", "--raw"] + CFG_MODES[c["mode"]], "keep": ["out"]})
+        jobs.append({"id": k, "files": {"cfg.json": clilib.jcfg(doc)}, "argv": ["-c", "cfg.json"] + (["--raw"] if k % 2 else ["--output", "prefixed"]) + CFG_MODES[c["mode"]], "keep": ["out"]})
     out = clilib.run_cli(ctx.workdir, jobs)
     items = []
     for k, c in enumerate(cases):
